@@ -12,6 +12,7 @@
 #include <cstdlib>
 #include <cstring>
 #include <string>
+#include <atomic>
 #include <vector>
 #include <map>
 #include <set>
@@ -155,17 +156,24 @@ inline void disarm_fail() { vf_fail_at = 0; vf_fail_sticky = 0; }
 
 // exact-size heap copy of caller data (new[] so it is not in the ledger); ASan red zones
 // make any access past it visible
+// Caller-side argument buffer, exactly sized at its end (so that ASan sees any over-read) and placed at a
+// rotating misalignment of 0..3 bytes from its allocation: the same key or value reaches the library through
+// pointers of different alignment within one case (malloc alone would always hand out 16-aligned ones).  The
+// rotation counter restarts with every case (g_buf_seq, reset by the drivers), so a case stays a pure function
+// of its bytes.
+extern std::atomic<unsigned> g_buf_seq;
+extern int g_via_members;     // this case calls the containers through their member pointers (common/via_members.hpp)
 struct Buf {
-    uint8_t *p = nullptr; size_t n = 0;
+    uint8_t *p = nullptr; size_t n = 0; uint8_t *base = nullptr;
     Buf() {}
     Buf(const void *d, size_t len) { set(d, len); }
     Buf(const std::string &s) { set(s.data(), s.size()); }
     Buf(const Buf &) = delete; Buf &operator=(const Buf &) = delete;
-    void set(const void *d, size_t len) { delete[] p; n = len; p = new uint8_t[len ? len : 1]; if (len) memcpy(p, d, len); }
+    void set(const void *d, size_t len) { delete[] base; n = len; unsigned q = g_buf_seq.fetch_add(1, std::memory_order_relaxed); size_t off = (q * 7u / 4u) & 3u; base = new uint8_t[off + (len ? len : 1)]; p = base + off; if (len) memcpy(p, d, len); }
     // C string copy (with terminating NUL) of s
-    static Buf *cstr(const std::string &s) { Buf *b = new Buf(); b->n = s.size() + 1; b->p = new uint8_t[b->n]; memcpy(b->p, s.c_str(), b->n); return b; }
+    static Buf *cstr(const std::string &s) { Buf *b = new Buf(); b->set(s.c_str(), s.size() + 1); return b; }
     void scribble() { if (p) memset(p, 0xA5, n); }
-    ~Buf() { delete[] p; }
+    ~Buf() { delete[] base; }
     char *c() { return (char *)p; }
 };
 
